@@ -144,6 +144,20 @@ theorem conv_transport {k k' : Kernel} {hfs : List Nat} {ρ σ τ : Nat → Nat}
   · have : (hfs.length == 6) = false := by simpa using hl
     rw [this]; rfl
 
+theorem disjointL_symm (a b : List Nat) : disjointL a b = disjointL b a := by
+  unfold disjointL
+  rw [Bool.eq_iff_iff]
+  simp only [List.all_eq_true, Bool.not_eq_true', List.contains_eq_mem, decide_eq_false_iff_not]
+  exact ⟨fun h x hx hxa => h x hxa hx, fun h x hx hxb => h x hxb hx⟩
+
+/-- the guard of 7800c85 (`Kernel.oppPairsDisjoint`, written from the C++) is the first clause of `HexConv` -/
+theorem oppPairs_eq (k : Kernel) (l : List Nat) : k.oppPairsDisjoint l = k.hexOppDisjointB l := by
+  unfold oppPairsDisjoint hexOppDisjointB
+  have : ∀ a, (((k.hfHes (l.getD (2 * a + 1) 0)).map k.fromV).all (fun v => !((k.hfHes (l.getD (2 * a) 0)).map k.fromV).contains v)) =
+      disjointL (k.hfVerts (l.getD (2 * a) 0)) (k.hfVerts (l.getD (2 * a + 1) 0)) := by
+    intro a; rw [disjointL_symm]; rfl
+  simp only [this]
+
 /-- the special case "same faces and edges" -/
 theorem conv_congr {k k' : Kernel} (he : k'.edges = k.edges) (hf : k'.faces = k.faces) (hfs : List Nat) :
     k'.hexConvListB hfs = k.hexConvListB hfs := by
